@@ -222,7 +222,7 @@ def run(prop, tier, seed):
     rep.coverage = {
         "programs": len(ran), "disagreements_checked": len(ran), "evaluations": len(ran),
         "distinct_nontrivial": len({shape(c) for c in nontrivial}),
-        "rule": "exhaustive: every one-parameter signature with a parameter type of depth <= 1 over int, float, bool, string, "
+        "rule": "exhaustive: every signature with one non-void parameter of a type of depth <= 1 (called by name / through a function value / through a function value with a void parameter in front) over int, float, bool, string, "
                 "a #host struct, a #host enum (void allowed as component) x 3 representative values (C36X.tla, TLC model-checking "
                 "mode, states = cases); random: signatures of arity 0..3, parameter types of depth <= 2 over the same atoms with "
                 "per-case generated #host struct/enum definitions and random values (C36.tla, tlc -simulate seed %d); long: arrays of "
